@@ -180,13 +180,21 @@ static void op_set(char *obs, int which, void *obj, const char *type, const char
 	unsigned char *name = unhex(name_h, &nl), *sv = NULL;
 	jwt_value_error_t rc;
 	if (g_val_reuse) {
-		/* an application that keeps one jwt_value_t and fills in what the next call needs */
+		/* an application that keeps one jwt_value_t and fills in what the next call needs -- and that builds its texts
+		 * in ONE buffer it refills for every call: the same address holds another text each time */
+		static char txt[1 << 17];
 		g_val.name = (char *)name;
 		g_val.replace = atoi(repl);
 		if (!strcmp(type, "int")) { g_val.type = JWT_VALUE_INT; g_val.int_val = atol(val); }
-		else if (!strcmp(type, "str")) { sv = unhex(val, &vl); g_val.type = JWT_VALUE_STR; g_val.str_val = (char *)sv; }
 		else if (!strcmp(type, "bool")) { g_val.type = JWT_VALUE_BOOL; g_val.bool_val = atoi(val); }
-		else { sv = unhex(val, &vl); g_val.type = JWT_VALUE_JSON; g_val.json_val = (char *)sv; }
+		else {
+			char *p;
+			sv = unhex(val, &vl);
+			p = (char *)sv;
+			if (sv && vl + 1 <= sizeof txt) { memcpy(txt, sv, vl + 1); p = txt; }
+			if (!strcmp(type, "str")) { g_val.type = JWT_VALUE_STR; g_val.str_val = p; }
+			else { g_val.type = JWT_VALUE_JSON; g_val.json_val = p; }
+		}
 		rc = do_set(which, obj, &g_val);
 		obs_append(obs, "rc=%d verr=%d", (int)rc, (int)g_val.error);
 		/* the value members share a union: whatever this call left in it stays for the next one */
